@@ -462,10 +462,10 @@ def run_check(prop, tier, seed, args, t0):
             with open(LEDGER, "w") as f:
                 json.dump(led, f, indent=1, sort_keys=True)
             print(f"ledger written: {len(led[prop]['discharged'])} groups")
+    if violations:
+        return 1  # a replayed or refuted obligation stands whatever else went wrong in the run
     if errors:
         return 3
-    if violations:
-        return 1
     if undecided:
         return 2
     return 0
